@@ -89,6 +89,6 @@ theorem gen_tx_pinned :
   decide
 
 theorem gen_pragmas_pinned :
-    Gen.storePragmas = ["\"_pragma=foreign_keys(1)&_pragma=journal_mode(WAL)&_pragma=synchronous(NORMAL)&_pragma=busy_timeout(8000)&_pragma=journal_size_limit(100000000)\""] := rfl
+    Gen.storePragmas = ["\"_pragma=busy_timeout(8000)&_pragma=foreign_keys(1)&_pragma=journal_mode(WAL)&_pragma=synchronous(NORMAL)&_pragma=journal_size_limit(100000000)\""] := rfl
 
 end Siot.Crash
